@@ -237,7 +237,7 @@ pub fn run(args: &Args) {
             match guarded(|| gen_::build(&cfg, &wd)) {
                 Ok(Ok(p)) => {
                     let mut bytes = vec![];
-                    p.write(&mut bytes).unwrap();
+                    p.write(&mut Plain(&mut bytes)).unwrap();
                     t.emit(files_event(&bytes, &format!("built:{ct}:{lvl:?}:{si}"), true, Some(paths)));
                 }
                 Ok(Err(e)) => { t.emit(json!({"event":"BuildErr","origin":format!("built:{ct}:{lvl:?}:{si}"),"err":err_name(&e)})); }
@@ -252,7 +252,7 @@ pub fn run(args: &Args) {
         paths.sort();
         if let Ok(Ok(p)) = guarded(|| gen_::build(&cfg, &wd)) {
             let mut bytes = vec![];
-            p.write(&mut bytes).unwrap();
+            p.write(&mut Plain(&mut bytes)).unwrap();
             t.emit(files_event(&bytes, &format!("random:{i}"), true, Some(paths)));
         }
     }
@@ -282,7 +282,7 @@ pub fn run(args: &Args) {
                 match guarded(|| gen_::build(&cfg, &wd)) {
                     Ok(Ok(p)) => {
                         let mut bytes = vec![];
-                        p.write(&mut bytes).unwrap();
+                        p.write(&mut Plain(&mut bytes)).unwrap();
                         t.emit(files_event(&bytes, &format!("largefile:{i}:{j}"), true, Some(paths)));
                     }
                     Ok(Err(e)) => { t.emit(json!({"event":"BuildErr","origin":format!("largefile:{i}:{j}"),"err":err_name(&e)})); }
